@@ -131,13 +131,18 @@ def addDumpLine (d : Dump) (l : String) : Dump :=
   match ws with
   | "n" :: a :: b :: c :: e :: "gc" :: g :: _ =>
     { d with nV := a.toNat!, nE := b.toNat!, nF := c.toNat!, nC := e.toNat!, gc := g == "1" }
-  | "v" :: t => { d with verts := d.verts ++ [t] }
-  | "e" :: a :: b :: _ => { d with edges := d.edges ++ [(a.toInt!.toNat, b.toInt!.toNat)] }
-  | "f" :: _ :: t => { d with faces := d.faces ++ [t.map (fun x => x.toInt!.toNat)] }
-  | "c" :: _ :: t => { d with cells := d.cells ++ [t.map (fun x => x.toInt!.toNat)] }
+  | "v" :: t => { d with verts := t :: d.verts }
+  | "e" :: a :: b :: _ => { d with edges := (a.toInt!.toNat, b.toInt!.toNat) :: d.edges }
+  | "f" :: _ :: t => { d with faces := t.map (fun x => x.toInt!.toNat) :: d.faces }
+  | "c" :: _ :: t => { d with cells := t.map (fun x => x.toInt!.toNat) :: d.cells }
   | "p" :: ent :: ty :: nm :: n :: ":" :: t =>
-    { d with props := d.props ++ [{ ent := ent, ty := ty, name := unhex nm, n := n.toNat!, slots := splitSlots t }] }
+    { d with props := { ent := ent, ty := ty, name := unhex nm, n := n.toNat!, slots := splitSlots t } :: d.props }
   | _ => d
+
+/-- `addDumpLine` collects newest first -/
+def Dump.finish (d : Dump) : Dump :=
+  { d with verts := d.verts.reverse, edges := d.edges.reverse, faces := d.faces.reverse, cells := d.cells.reverse,
+           props := d.props.reverse }
 
 /-- raw integers of the dump, negative ones kept: WF must see them -/
 def rawInts (l : String) : List Int := ((words l).drop 2).map (fun x => x.toInt!)
@@ -362,19 +367,38 @@ structure JState where
   fileM : Option AFile := none      -- model parse of TEXT (poly, unchecked)
   stats : Stats := {}
 
-def emit (st : JState) (verdict detail : String) : IO JState := do
-  IO.println s!"J {st.caseId} {st.mutId} {st.readNo} {verdict} kind={st.cur.kind} chk={if st.cur.chk then 1 else 0} bu={if st.cur.bu then 1 else 0} mut={st.mutKind} {detail}"
+/-- `level`: `prop` = the property's own oracle fails on the implementation's output alone (crash, hang,
+    foreign exception, success with an invalid mesh, round trip through the implementation differs, …);
+    `corr` = model and implementation disagree although that oracle passes (the correspondence broke). -/
+def emit (st : JState) (verdict level sig detail : String) : IO JState := do
+  IO.println s!"J {st.caseId} {st.mutId} {st.readNo} {verdict} level={level} sig={sig} kind={st.cur.kind} chk={if st.cur.chk then 1 else 0} bu={if st.cur.bu then 1 else 0} mut={st.mutKind} :: {detail}"
   let s := st.stats
   let s := { s with judged := s.judged + 1 }
   let s := if verdict == "OK" then { s with ok := s.ok + 1 } else if verdict == "SKIP" then { s with skipped := s.skipped + 1 } else { s with failed := s.failed + 1 }
   return { st with stats := s }
 
-def emitCase (st : JState) (verdict what detail : String) : IO JState := do
-  IO.println s!"J {st.caseId} - 0 {verdict} what={what} {detail}"
+def emitCase (st : JState) (verdict level sig detail : String) : IO JState := do
+  IO.println s!"J {st.caseId} - 0 {verdict} level={level} sig={sig} kind={st.caseKind} chk=- bu=- mut=- :: {detail}"
   let s := st.stats
   let s := { s with judged := s.judged + 1 }
   let s := if verdict == "OK" then { s with ok := s.ok + 1 } else { s with failed := s.failed + 1 }
   return { st with stats := s }
+
+def deathSig (rline : String) : String :=
+  match words rline with
+  | "X" :: r :: _ => "died:" ++ r
+  | "R" :: "exc" :: w :: _ => "exception:" ++ ((w.splitOn ":").headD w)
+  | _ => "died:?"
+
+/-- implementation-only comparison of two dumps (source mesh / mesh read back) -/
+def dumpDiff (a b : Dump) : Option String :=
+  if a.nV != b.nV || a.nE != b.nE || a.nF != b.nF || a.nC != b.nC then some "counts"
+  else if a.verts != b.verts then some "positions"
+  else if a.edges != b.edges then some "edges"
+  else if a.faces != b.faces then some "faces"
+  else if a.cells != b.cells then some "cells"
+  else if a.props.map (fun p => (p.ent, p.ty, p.name, p.n, p.slots)) != b.props.map (fun p => (p.ent, p.ty, p.name, p.n, p.slots)) then some "properties"
+  else none
 
 /-- judge one finished READ -/
 def judgeRead (st : JState) : IO JState := do
@@ -384,86 +408,102 @@ def judgeRead (st : JState) : IO JState := do
   let cm := classOfModel o
   let ci := classOfImpl r.rline
   if cm == "gray" then
-    return ← emit st "SKIP" s!"gray-count impl={r.rline}"
+    return ← emit st "SKIP" "-" "gray-count" s!"impl={r.rline}"
   let st := { st with stats := { st.stats with classes := bump st.stats.classes (ci ++ "/" ++ cm) } }
-  if o.fault then
-    return ← emit st "FAIL" s!"model-fault impl={r.rline}"
   if ci == "crash" || ci == "exc-other" || ci == "?" then
-    return ← emit st "FAIL" s!"impl-died model={cm} impl={r.rline}"
+    return ← emit st "FAIL" "prop" (deathSig r.rline) s!"model={cm} impl={r.rline}"
+  if o.fault then
+    return ← emit st "FAIL" "corr" "model-fault" s!"impl={r.rline}"
+  let ownUnchecked := !st.textIsMut && r.kind == st.caseKind && !r.chk
+  if ownUnchecked && ci != "ok" then
+    return ← emit st "FAIL" "prop" "roundtrip-read-failed" s!"impl={r.rline}"
   if ci != cm then
-    return ← emit st "FAIL" s!"class model={cm} impl={r.rline} modelres={match o.res with | .error e => reprStr e | .ok _ => "ok"}"
+    -- success of the implementation where the model refuses: is the mesh at least valid?
+    if ci == "ok" then
+      match dumpWF r.dump r.rawE r.rawF r.rawC with
+      | some why => return ← emit st "FAIL" "prop" "success-not-WF" why
+      | none => pure ()
+    return ← emit st "FAIL" "corr" s!"class:model={cm}:impl={ci}" s!"impl={r.rline} modelres={match o.res with | .error e => reprStr e | .ok _ => "ok"}"
   match o.res with
-  | .error _ => emit st "OK" s!"class={cm}"
+  | .error _ => emit st "OK" "-" "-" s!"class={cm}"
   | .ok F =>
-    -- success: WF of the implementation's mesh, then equality with the model's file
     let st := { st with stats := { st.stats with wfChecked := st.stats.wfChecked + 1 } }
     match dumpWF r.dump r.rawE r.rawF r.rawC with
-    | some why => emit st "FAIL" s!"impl-not-WF {why}"
+    | some why => emit st "FAIL" "prop" "success-not-WF" why
     | none =>
     match fileWF F with
-    | some why => emit st "FAIL" s!"model-not-WF {why}"
+    | some why => emit st "FAIL" "corr" "model-not-WF" why
     | none =>
-    let exact := !st.textIsMut
-    match diffFile exact (!hasDupKeys st.text) F r.dump with
-    | some why => emit st "FAIL" s!"file-differs {why}"
-    | none =>
-      if st.textIsMut then emit st "OK" "class=ok"
-      else
-        -- round trip proper: the file read back is the file written, and writing again changes nothing
-        match st.fileM with
-        | none => emit st "FAIL" "no model parse of the written text"
-        | some F0 =>
-          if F != F0 then emit st "FAIL" "read-back file differs from the written one (model)"
-          else match diffFile true true F0 r.dump with
-            | some why => emit st "FAIL" s!"read-back differs from source: {why}"
-            | none =>
-              match r.w with
-              | none => emit st "FAIL" "no second write"
-              | some w =>
-                let (t1, b1) := propBlocks F0 st.text
-                let (t2, b2) := propBlocks F0 w
-                if t1 != t2 then emit st "FAIL" "second write: topology text differs"
-                else if sortStrs b1 != sortStrs b2 then emit st "FAIL" "second write: property blocks differ"
-                else if w.length != st.text.length then emit st "FAIL" "second write: length differs"
-                else emit st "OK" "roundtrip"
+    if st.textIsMut then
+      match diffFile false (!hasDupKeys st.text) F r.dump with
+      | some why => emit st "FAIL" "corr" ("file-differs:" ++ ((why.splitOn " ").headD "")) why
+      | none => emit st "OK" "-" "-" "class=ok"
+    else
+      -- round trip proper.  Implementation alone first: the mesh read back is the mesh written …
+      let sameKind := r.kind == st.caseKind
+      match dumpDiff st.src r.dump with
+      | some why => emit st "FAIL" "prop" ("roundtrip-differs:" ++ why) s!"mesh read back differs from the source mesh in {why}"
+      | none =>
+      let _ := sameKind
+      -- … and writing it again changes nothing (property blocks compared as a multiset)
+      match r.w, st.fileM with
+      | none, _ => emit st "FAIL" "prop" "no-second-write" ""
+      | some _, none => emit st "FAIL" "corr" "no-model-parse" "the written text has no model parse"
+      | some w, some F0 =>
+        let (t1, b1) := propBlocks F0 st.text
+        let (t2, b2) := propBlocks F0 w
+        if t1 != t2 then emit st "FAIL" "prop" "second-write:topology" "second write: topology text differs"
+        else if sortStrs b1 != sortStrs b2 || w.length != st.text.length then emit st "FAIL" "prop" "second-write:properties" "second write: property blocks differ"
+        else
+          -- model: same file, and equal to the dump token for token
+          if F != F0 then emit st "FAIL" "corr" "model-readback" "model: file read back differs from the file written"
+          else match diffFile true true F r.dump with
+            | some why => emit st "FAIL" "corr" ("file-differs:" ++ ((why.splitOn " ").headD "")) why
+            | none => emit st "OK" "-" "-" "roundtrip"
 
 /-- judge a freshly written TEXT against the dump of its source mesh (rt mode) -/
 def judgeText (st : JState) : IO JState := do
   let o := parse (mkCfg "poly" false) st.text
   match o.res with
-  | .error e => emitCase { st with fileM := none } "FAIL" "model-parse-of-written-text" (reprStr e)
+  | .error e => emitCase { st with fileM := none } "FAIL" "corr" "written-text-unparsable-by-model" (reprStr e)
   | .ok F =>
     let st := { st with fileM := some F }
     match diffFile true true F st.src with
-    | some why => emitCase st "FAIL" "written-text-vs-source" why
+    | some why => emitCase st "FAIL" "corr" ("written-text-vs-source:" ++ ((why.splitOn " ").headD "")) why
     | none =>
-      if print F != st.text then emitCase st "FAIL" "model-print-vs-written-text" s!"model={hexOf (print F)}"
-      else if (parse (mkCfg "poly" false) (print F)).res.toOption != some F then emitCase st "FAIL" "model-idempotence" ""
-      else emitCase st "OK" "written-text" ""
+      if print F != st.text then emitCase st "FAIL" "corr" "model-print-vs-written-text" s!"model={hexOf (print F)}"
+      else if (parse (mkCfg "poly" false) (print F)).res.toOption != some F then emitCase st "FAIL" "corr" "model-idempotence" ""
+      else emitCase st "OK" "-" "-" "written-text"
 
 def judgeDetect (st : JState) : IO JState := do
   let mt := detect 4 st.text
   let mh := detect 6 st.text
-  let specT := match st.fileM with | some F => !F.cells.isEmpty && F.cells.all (·.length == 4) | none => mt
-  let specH := match st.fileM with | some F => !F.cells.isEmpty && F.cells.all (·.length == 6) | none => mh
-  if mt != st.detTet || mh != st.detHex then emitCase st "FAIL" "detect" s!"model tet={mt} hex={mh} impl tet={st.detTet} hex={st.detHex}"
-  else if mt != specT || mh != specH then emitCase st "FAIL" "detect-spec" s!"tet={mt}/{specT} hex={mh}/{specH}"
-  else emitCase st "OK" "detect" ""
+  -- specification on the source mesh: at least one cell and every cell has 4 (6) halffaces
+  let specT := !st.src.cells.isEmpty && st.src.cells.all (·.length == 4)
+  let specH := !st.src.cells.isEmpty && st.src.cells.all (·.length == 6)
+  if st.detTet != specT || st.detHex != specH then
+    emitCase st "FAIL" "prop" "detect" s!"impl tet={st.detTet} hex={st.detHex} expected tet={specT} hex={specH}"
+  else if mt != st.detTet || mh != st.detHex then
+    emitCase st "FAIL" "corr" "detect-model" s!"model tet={mt} hex={mh} impl tet={st.detTet} hex={st.detHex}"
+  else emitCase st "OK" "-" "-" "detect"
 
 def judgePending (st : JState) : IO JState := do
-  -- model: `write` refuses iff needsGC
   let refusedM := (write { file := {}, needsGC := st.src.gc }).isNone
   let refusedI := st.text.isEmpty && !st.wstateGood
-  if refusedM && refusedI then emitCase st "OK" "pending-refused" ""
-  else if refusedI != refusedM && st.text.isEmpty then emitCase st "FAIL" "pending" s!"wrote nothing but stream good={st.wstateGood}"
+  if refusedI then
+    if refusedM then emitCase st "OK" "-" "-" "pending-refused"
+    else emitCase st "FAIL" "corr" "pending-model" "implementation refused, model writes"
   else
-    -- something was written: it must be the logical content
+    -- something was written (or nothing, silently): it must be the logical content
     let o := parse (mkCfg "poly" false) st.text
     match o.res with
-    | .error e => emitCase st "FAIL" "pending-written-file-unreadable" (reprStr e)
+    | .error e => emitCase st "FAIL" "prop" "pending-unreadable" s!"written file does not read back: {reprStr e}"
     | .ok F => match diffFile true true F st.gcsrc with
-      | some why => emitCase st "FAIL" "pending-written-file-differs-from-logical-content" why
-      | none => emitCase st "OK" "pending-logical" ""
+      | some why => emitCase st "FAIL" "prop" "pending-differs" s!"written file differs from the logical content: {why}"
+      | none =>
+        -- also through the implementation's own reader
+        if classOfImpl st.cur.rline != "ok" then emitCase st "FAIL" "prop" "pending-unreadable" s!"implementation cannot read it back: {st.cur.rline}"
+        else emitCase st "OK" "-" "-" "pending-logical"
 
 def step (st : JState) (l : String) : IO JState := do
   let ws := words l
@@ -473,9 +513,9 @@ def step (st : JState) (l : String) : IO JState := do
     return { st with caseId := id, caseKind := kv ws "kind", mutId := "-", mutKind := "", readNo := 0, fileM := none,
                      pending := (kv ws "pending") != "", src := {}, gcsrc := {}, text := [], textIsMut := false }
   | ["SRC"] => return { st with inSrc := true, src := {} }
-  | ["ENDSRC"] => return { st with inSrc := false }
+  | ["ENDSRC"] => return { st with inSrc := false, src := st.src.finish }
   | ["GCSRC"] => return { st with inGc := true, gcsrc := {} }
-  | ["ENDGCSRC"] => return { st with inGc := false }
+  | ["ENDGCSRC"] => return { st with inGc := false, gcsrc := st.gcsrc.finish }
   | "TEXT" :: rest =>
     let st := { st with text := unhex (rest.headD ""), textIsMut := false }
     if st.mode == "rt" then judgeText st
@@ -493,7 +533,8 @@ def step (st : JState) (l : String) : IO JState := do
   | "X" :: _ => return { st with cur := { st.cur with rline := l } }
   | "W" :: rest => return { st with cur := { st.cur with w := some (unhex (rest.headD "")) } }
   | ["ENDREAD"] =>
-    let st := { st with inRead := false }
+    let c := st.cur
+    let st := { st with inRead := false, cur := { c with dump := c.dump.finish, rawE := c.rawE.reverse, rawF := c.rawF.reverse, rawC := c.rawC.reverse } }
     if st.pending then return st else judgeRead st
   | ["ENDCASE"] => if st.pending then judgePending st else return st
   | _ =>
@@ -503,9 +544,9 @@ def step (st : JState) (l : String) : IO JState := do
       let c := st.cur
       let c := { c with dump := addDumpLine c.dump l }
       let c := match ws with
-        | "e" :: _ => { c with rawE := c.rawE ++ [(ws.drop 1).map (fun x => x.toInt!)] }
-        | "f" :: _ => { c with rawF := c.rawF ++ [rawInts l] }
-        | "c" :: _ => { c with rawC := c.rawC ++ [rawInts l] }
+        | "e" :: _ => { c with rawE := (ws.drop 1).map (fun x => x.toInt!) :: c.rawE }
+        | "f" :: _ => { c with rawF := rawInts l :: c.rawF }
+        | "c" :: _ => { c with rawC := rawInts l :: c.rawC }
         | _ => c
       return { st with cur := c }
     else return st
